@@ -91,12 +91,21 @@ func (d *wrappedSlidingWindowDetector) Check(seq uint64) (func() bool, bool) {
 		return nop, false
 	}
 	if !d.init {
-		if seq != 0 {
-			d.latestSeq = seq - 1
-		} else {
-			d.latestSeq = d.maxSeq
-		}
-		d.init = true
+		// Nothing has been accepted yet, so every number is fresh. The window
+		// is positioned by the first accepted number, not by a mere check.
+		return func() bool {
+			if d.init {
+				// Another number has been accepted in the meantime.
+				accept, ok := d.Check(seq)
+
+				return ok && accept()
+			}
+			d.init = true
+			d.latestSeq = seq
+			d.mask.SetBit(0)
+
+			return true
+		}, true
 	}
 
 	diff := int64(d.latestSeq) - int64(seq) //nolint:gosec // GG115 TODO check
